@@ -242,6 +242,6 @@ pub fn op_sequences(ctx: &mut Ctx, acc: &mut Acc, check: &str, hostile: bool, ro
 }
 
 pub fn hostile_ops(ctx: &mut Ctx, acc: &mut Acc, check: &str) {
-    let rounds = ctx.n(40_000, 1_000_000);
+    let rounds = ctx.n(200_000, 2_000_000);
     op_sequences(ctx, acc, check, true, rounds);
 }
